@@ -307,6 +307,11 @@ func c12GroupsOn(l *core.Local, p *route.Parser) (bounds string) {
 		f := flamego.NewWithLogger(io.Discard)
 		body := func() {
 			for i, rt := range j.sib {
+				if i%2 == 1 {
+					// named through a Combo: the name goes to the route the Combo added last
+					f.Combo(rt).Post(func() {}).Get(func() {}).Name(fmt.Sprintf("r%d", i))
+					continue
+				}
 				f.Get(rt, func() {}).Name(fmt.Sprintf("r%d", i))
 			}
 		}
@@ -545,6 +550,7 @@ func c12Run(r *core.Run) {
 				l.Class("panics-as-documented")
 			}
 		}
+		expectPanic("Combo.Name(before any method)", func() { f := flamego.NewWithLogger(io.Discard); f.Combo("/a").Name("n") })
 		expectPanic("Name(empty)", func() { f := flamego.NewWithLogger(io.Discard); f.Get("/a", func() {}).Name("") })
 		expectPanic("Name(duplicate)", func() {
 			f := flamego.NewWithLogger(io.Discard)
